@@ -180,6 +180,27 @@ Proof.
         destruct e as [a b c]. simpl in *. subst c. reflexivity.
 Qed.
 
+(** replaced iff quorum (no side condition: holds whenever the update completes) *)
+Theorem replaced_iff_quorum p st h rs evs :
+  update true p st h = Done rs evs ->
+  forall pr, (In pr (map fst evs) <-> quorum p st pr) /\
+             (quorum p st pr -> In (mkRate pr (wmedian true (pair_votes st pr)) h) rs /\
+                                In (pr, wmedian true (pair_votes st pr)) evs) /\
+             (~ quorum p st pr -> forall e, r_pair e = pr -> In e rs -> In e (rates st)).
+Proof.
+  intros Hu pr. apply update_done in Hu as [He Hr]. split; [|split].
+  - rewrite <- valid_pairs_iff. subst evs. rewrite map_map. simpl. rewrite map_id. tauto.
+  - intro Hq. apply valid_pairs_iff in Hq.
+    assert (Hin : In (pr, wmedian true (pair_votes st pr)) evs).
+    { subst evs. apply in_map_iff. exists pr. split; [reflexivity | exact Hq]. }
+    split; [|exact Hin]. subst rs. apply in_or_app. right. apply in_map_iff.
+    exists (pr, wmedian true (pair_votes st pr)). split; [reflexivity | exact Hin].
+  - intros Hq e Ep Hin. subst rs. apply in_app_or in Hin as [Hin|Hin].
+    + apply filter_In in Hin as [Hin _]. exact Hin.
+    + exfalso. apply in_map_iff in Hin as [[q m] [E Hin]]. subst e evs. simpl in Ep. subst q.
+      apply in_map_iff in Hin as [pr' [E Hv]]. injection E as -> _. apply valid_pairs_iff in Hv. contradiction.
+Qed.
+
 (** the published rate was submitted, with a positive rate, by an eligible validator of positive power *)
 Theorem median_submitted p st pr :
   wf st -> quorum p st pr ->
